@@ -5,7 +5,8 @@
    tok_diff / diff_C07: Instances/HoldsC07.v - the very predicate the extracted monitor evaluates on the
    implementation's tokens; [observe] computes from a model token what the harness observes of a real one. *)
 From PV Require Import Base.Prelude Generated.T_lexer Model.Lexer Spec.LuaLex Instances.HoldsC07
-  Proofs.LexerProofs Proofs.LexerInv Proofs.LexerSpec Proofs.LexerNum Proofs.LexerAgree Proofs.LexerMain.
+  Proofs.LexerProofs Proofs.LexerInv Proofs.LexerSpec Proofs.LexerNum Proofs.LexerAgree Proofs.LexerMain
+  Proofs.LexerChunk Proofs.EchoProofs.
 
 (* THE property, for every byte string given as one chunk: if the source is in the dialect (the reference
    lexer is defined on it) the model lexes it and its token list passes the monitor predicate - same
@@ -19,6 +20,23 @@ Theorem C07_lex_agrees : forall src, Forall byte src ->
   end.
 Proof. exact model_holds_C07. Qed.
 Print Assumptions C07_lex_agrees.
+
+(* tokenisation does not depend on whether the text arrives as one chunk (.p8.png path) or split after line
+   feeds (.p8 path): same token list, same error - EVERY input (also outside the dialect), every chunk list
+   whose chunks, except the last, end with a line feed; every single-line matcher of the regenerated table is
+   shown not to consume or look past a line feed, the three multi-line scanners to be compositional at one *)
+Theorem C07_chunking : forall ls, Forall ends_lf (removelast ls) -> model_lex ls = model_lex [concat ls].
+Proof. exact model_lex_chunking. Qed.
+Print Assumptions C07_chunking.
+
+(* hence THE property on the .p8 path as well *)
+Theorem C07_lex_agrees_chunks : forall ls, Forall ends_lf (removelast ls) -> Forall byte (concat ls) ->
+  match model_lex ls with
+  | Ok ts => holds_C07 (concat ls) (map observe ts) = true
+  | Err _ => holds_C07_error (concat ls) = true
+  end.
+Proof. exact model_holds_C07_chunks. Qed.
+Print Assumptions C07_lex_agrees_chunks.
 
 (* the same, token by token *)
 Theorem C07_lex_agrees_tokens : forall src ss, Forall byte src -> spec_lex src = Some ss ->
